@@ -283,7 +283,17 @@ func (amf0) ReadUndefinedOrUnsupported(b []byte) (int, error) {
 // @return ObjectPairArray: ...
 // @return int: 读取时从 b 消耗的字节大小
 // @return error: ...
+// amf0MaxNestingDepth object/array的最大嵌套层数。解析是递归实现的，不限制的话，对端发送一个嵌套层数极大的消息可以耗尽栈空间，导致进程退出
+const amf0MaxNestingDepth = 64
+
 func (amf0) ReadObject(b []byte) (ObjectPairArray, int, error) {
+	return Amf0.readObject(b, 0)
+}
+
+func (amf0) readObject(b []byte, depth int) (ObjectPairArray, int, error) {
+	if depth > amf0MaxNestingDepth {
+		return nil, 0, nazaerrors.Wrap(base.ErrAmfNestingTooDeep)
+	}
 	if len(b) < 1 {
 		return nil, 0, nazaerrors.Wrap(base.ErrAmfTooShort)
 	}
@@ -305,7 +315,7 @@ func (amf0) ReadObject(b []byte) (ObjectPairArray, int, error) {
 		index += l
 
 		var readErr error
-		ops, index, readErr = Amf0.read(b, index, k, ops)
+		ops, index, readErr = Amf0.read(b, index, k, ops, depth)
 		if readErr != nil {
 			return ops, index, readErr
 		}
@@ -316,6 +326,13 @@ func (amf0) ReadObject(b []byte) (ObjectPairArray, int, error) {
 
 // ReadArray Amf0TypeMarkerEcmaArray
 func (amf0) ReadArray(b []byte) (ObjectPairArray, int, error) {
+	return Amf0.readArray(b, 0)
+}
+
+func (amf0) readArray(b []byte, depth int) (ObjectPairArray, int, error) {
+	if depth > amf0MaxNestingDepth {
+		return nil, 0, nazaerrors.Wrap(base.ErrAmfNestingTooDeep)
+	}
 	if len(b) < 5 {
 		return nil, 0, nazaerrors.Wrap(base.ErrAmfTooShort)
 	}
@@ -334,7 +351,7 @@ func (amf0) ReadArray(b []byte) (ObjectPairArray, int, error) {
 		index += l
 
 		var readErr error
-		ops, index, readErr = Amf0.read(b, index, k, ops)
+		ops, index, readErr = Amf0.read(b, index, k, ops, depth)
 		if readErr != nil {
 			return ops, index, readErr
 		}
@@ -349,6 +366,13 @@ func (amf0) ReadArray(b []byte) (ObjectPairArray, int, error) {
 }
 
 func (amf0) ReadStrictArray(b []byte) (ObjectPairArray, int, error) {
+	return Amf0.readStrictArray(b, 0)
+}
+
+func (amf0) readStrictArray(b []byte, depth int) (ObjectPairArray, int, error) {
+	if depth > amf0MaxNestingDepth {
+		return nil, 0, nazaerrors.Wrap(base.ErrAmfNestingTooDeep)
+	}
 	if len(b) < 5 {
 		return nil, 0, nazaerrors.Wrap(base.ErrAmfTooShort)
 	}
@@ -361,7 +385,7 @@ func (amf0) ReadStrictArray(b []byte) (ObjectPairArray, int, error) {
 	var ops ObjectPairArray
 	for i := 0; i < count; i++ {
 		var readErr error
-		ops, index, readErr = Amf0.read(b, index, "", ops)
+		ops, index, readErr = Amf0.read(b, index, "", ops, depth)
 		if readErr != nil {
 			return ops, index, readErr
 		}
@@ -383,7 +407,7 @@ func (amf0) ReadObjectOrArray(b []byte) (ObjectPairArray, int, error) {
 	return nil, 0, base.NewErrAmfInvalidType(b[0])
 }
 
-func (amf0) read(b []byte, index int, k string, ops ObjectPairArray) (ObjectPairArray, int, error) {
+func (amf0) read(b []byte, index int, k string, ops ObjectPairArray, depth int) (ObjectPairArray, int, error) {
 	if len(b)-index < 1 {
 		return nil, 0, nazaerrors.Wrap(base.ErrAmfTooShort)
 	}
@@ -417,21 +441,21 @@ func (amf0) read(b []byte, index int, k string, ops ObjectPairArray) (ObjectPair
 		}
 		index += l
 	case Amf0TypeMarkerObject:
-		v, l, err := Amf0.ReadObject(b[index:])
+		v, l, err := Amf0.readObject(b[index:], depth+1)
 		if err != nil {
 			return nil, 0, err
 		}
 		ops = append(ops, ObjectPair{k, v})
 		index += l
 	case Amf0TypeMarkerEcmaArray:
-		v, l, err := Amf0.ReadArray(b[index:])
+		v, l, err := Amf0.readArray(b[index:], depth+1)
 		if err != nil {
 			return nil, 0, err
 		}
 		ops = append(ops, ObjectPair{k, v})
 		index += l
 	case Amf0TypeMarkerStrictArray:
-		v, l, err := Amf0.ReadStrictArray(b[index:])
+		v, l, err := Amf0.readStrictArray(b[index:], depth+1)
 		if err != nil {
 			return nil, 0, err
 		}
